@@ -42,7 +42,11 @@ class C16(Prop):
         rows5 = C.read_jsonl(p5)
         if rc != 0 or not rows5:
             raise RuntimeError("C16 slow-upload harness did not run: rc=%s\n%s" % (rc, out[-2000:]))
-        return {"rows": rows + rows2 + rows3 + rows4 + rows5}
+        rc, out, p6, dt = C.go_test_overlay(ctx.work, "./utils/tcpbridge/connection/", "TestVerifC16AbortThenConcurrent$", OVERLAY, "C16Abort.jsonl", ctx.seed, ctx.tier, timeout=900, extra_env=env)
+        rows6 = C.read_jsonl(p6)
+        if rc != 0 or not rows6:
+            raise RuntimeError("C16 abort-then-concurrent harness did not run: rc=%s\n%s" % (rc, out[-2000:]))
+        return {"rows": rows + rows2 + rows3 + rows4 + rows5 + rows6}
 
     def oracle(self, ctx, obs):
         res = []
@@ -50,6 +54,12 @@ class C16(Prop):
             if r["kind"] == "open-count":
                 if r["open"] != 0:
                     res.append(("connections-leaked", "%d of %d bridged connections are still open on the TCP server after both ends are gone" % (r["open"], r["scenarios"]), r))
+                continue
+            if r["kind"] == "abort-then-concurrent":
+                if r.get("bad"):
+                    res.append(("concurrent:stream-of-another-connection", "after %d downloads aborted by their clients, %d of %d concurrent downloads did not receive exactly their own %d bytes followed by end of stream" % (
+                        r["aborted_downloads"], r["bad"], r["concurrent_downloads"], r["bytes_each"]),
+                        {"driver": "TestVerifC16AbortThenConcurrent: 8 downloads cut by the client after 256 KiB, then 8 concurrent downloads of 12 MiB with per-connection content", "observed": r}))
                 continue
             if r["kind"] == "slow-upload":
                 rp = {"driver": "TestVerifC16SlowUpload: the client uploads 84 MiB to a TCP server that reads 4 MiB/s (about 21 s); nobody closes", "observed": r}
